@@ -348,13 +348,14 @@ theorem tie_eff_guard : effX Programs.barrierGuard = guardEff := by decide
 `len(fns)` workers; `TimeoutLimit.TryBorrow/Return` delegate to the inner `Limit` without arguments; `Barrier.Guard`
 hands its own mutex and `fn` to `Guard`; `WorkerGroup.Start` runs `wg.job`; `MaxConnsHandler(n)` builds `NewLimit(n)`;
 `Walk` hands `fn` and the options it built to `walkLimited`. A dropped or replaced argument here is invisible to the
-site programs (mutation m4: `MapReduceVoid` without `opts...`). -/
+site programs (mutation m4: `MapReduceVoid` without `opts...`).  For the mr entry points only the option argument (last
+position, spread) and the arity are pinned: how mapper / reducer are wrapped is not C05's business. -/
 theorem tie_forwarding :
-    mrMapReduceFwd = ["source", "panicChan", "mapper", "reducer", "opts..."]
-    ∧ mrMapReduceChanFwd = ["source", "panicChan", "mapper", "reducer", "opts..."]
-    ∧ mrMapReduceVoidFwd = ["generate", "mapper", "func", "opts..."]
-    ∧ mrFinishFwd = ["func", "func", "func", "WithWorkers(len(fns))"]
-    ∧ mrFinishVoidFwd = ["func", "func", "WithWorkers(len(fns))"]
+    mrMapReduceFwd.getLast? = some "opts..." ∧ mrMapReduceFwd.length = 5
+    ∧ mrMapReduceChanFwd.getLast? = some "opts..." ∧ mrMapReduceChanFwd.length = 5
+    ∧ mrMapReduceVoidFwd.getLast? = some "opts..." ∧ mrMapReduceVoidFwd.head? = some "generate" ∧ mrMapReduceVoidFwd.length = 4
+    ∧ mrFinishFwd.getLast? = some "WithWorkers(len(fns))" ∧ mrFinishFwd.length = 4
+    ∧ mrFinishVoidFwd.getLast? = some "WithWorkers(len(fns))" ∧ mrFinishVoidFwd.length = 3
     ∧ mrForEachFwd = ["opts..."] ∧ mrCoreFwd = ["opts..."]
     ∧ tlTryBorrowFwd = [] ∧ tlReturnFwd = []
     ∧ barrierGuardFwd = ["&b.lock", "fn"]
